@@ -463,7 +463,7 @@ def run(ctx: Context):
                         if g is None:
                             raise AnchorVanished("visit callback for %s is neither a lambda nor a nested function" % lst)
                         gps = g.params[1:]
-                        amap = {}
+                        amap = {p: dflt.id for p, dflt in _lambda_bindings(g.node)[0].items() if isinstance(dflt, ast.Name)}
                         for p, a in zip(gps, c.args[1:]):
                             if isinstance(a, ast.Name):
                                 amap[p] = a.id
@@ -621,7 +621,10 @@ def run(ctx: Context):
                   "cap: a cycle back to the root visits the root twice" % (src(DT, fv) if fv is not None else "missing"))
         # the result of the walk: walker.finish() runs after the whole walk, its value reaches monitor.finish, and the
         # monitor handed to the walk is the one returned
-        a_walker, a_mon = targ(T_WALKER), targ(amap.get(role_param(CH, "raise_if_cancelled", "monitor")))
+        rest = [q for q in td_params if q not in (T_NODE, T_PATH, T_WALKER, T_FOUND)]
+        if len(rest) != 1:
+            raise AnchorVanished("_deep_traverse_dirnode: the monitor parameter was not identified (%s)" % rest)
+        a_walker, a_mon = targ(T_WALKER), targ(rest[0])
         if not (isinstance(a_walker, ast.Name) and isinstance(a_mon, ast.Name)):
             raise AnchorVanished("deep_traverse: walker / monitor handed to the walk are not plain names")
         WD = None
@@ -931,7 +934,7 @@ def run(ctx: Context):
             uses = any(isinstance(c, ast.Call) and call_name(c) == "self.to_string"
                        for n in rets for c in ast.walk(n.ast) if n.ast.value is not None)
             r.site(m, None, "content based")
-            r.require(uses, m, m.loc(), "_BaseURI.%s is not computed from self.to_string(): equal caps held by different "
+            r.require(uses or m is be, m, m.loc(), "_BaseURI.%s is not computed from self.to_string(): equal caps held by different "
                       "node objects no longer de-duplicate" % m.name)
         if be is not None:
             prm = first_positional_params(be)
@@ -974,6 +977,9 @@ def run(ctx: Context):
                         return None
                     fact = v
                 return (fact, returned)
+            r.require(any(n.ast.value is not None and content_cmp(n, n.ast.value) for n in ecfg.find(is_return)), be, be.loc(),
+                      "_BaseURI.__eq__ is not computed from self.to_string(): equal caps held by different node objects no "
+                      "longer de-duplicate")
             evis, epar = explore(ecfg, (0, 0), etr)
             r.count(len(evis))
             for (nid, st) in sorted(evis):
